@@ -29,10 +29,11 @@ def main():
 	assert rc == 0, out
 	meta = {'property': a.prop, 'name': a.name, 'tier': a.tier, 'repo_head': sh('git -C /repo rev-parse --short HEAD')[1].strip()}
 	try:
-		shutil.copytree(a.seed_dir, f'{wt}/seedx')
-		rc0, out0 = sh('/venv/bin/python seedx/demo.py', cwd=wt)
+		sd = os.path.basename(os.path.normpath(a.seed_dir))  # demos may address their own directory by name
+		shutil.copytree(a.seed_dir, f'{wt}/{sd}')
+		rc0, out0 = sh(f'/venv/bin/python {sd}/demo.py', cwd=wt)
 		meta['demo_clean_exit'] = rc0
-		rc, out = sh('git apply seedx/patch.diff', cwd=wt)
+		rc, out = sh(f'git apply {sd}/patch.diff', cwd=wt)
 		meta['patch_applies'] = rc == 0
 		if rc != 0:
 			print('PATCH DOES NOT APPLY', out); meta['note'] = out[-400:]
@@ -42,7 +43,7 @@ def main():
 				m = re.search(r'(\d+) passed', out)
 				meta['tests_passed'] = int(m.group(1)) if m else None
 				meta['tests_tail'] = out.strip().splitlines()[-1] if out.strip() else ''
-			rc1, out1 = sh('/venv/bin/python seedx/demo.py', cwd=wt)
+			rc1, out1 = sh(f'/venv/bin/python {sd}/demo.py', cwd=wt)
 			meta['demo_patched_exit'] = rc1
 			meta['demo_patched_tail'] = out1.strip()[-300:]
 			env = dict(os.environ, VERIF_REPO=wt, VERIF_EVIDENCE_DIR=f'/tmp/swt/ev-{a.prop}-{a.name}')
